@@ -37,7 +37,7 @@ class Shape:
         self.st = State()
         # callees that live in third-party crates are not interpreted: they are recorded ("ext", name) and
         # return an unknown value, so that a deviation from the reviewed shape shows up as an unexpected call
-        transparent = {"json_syntax", "jsvroots", "core", "alloc", "std", "locspan", "decoded_char"}
+        transparent = {"json_syntax", "jsvroots", "core", "alloc", "std", "locspan", "decoded_char", "serde", "serde_core"}
 
         def ext_pred(inst):
             return inst["crate"] not in transparent
